@@ -53,6 +53,17 @@ def scoped_stream(ctx: fw.Ctx, n_random: int):
                             info = {"wrapper": wname, "layers": len(layers), "inside": inside, "depth": depth, "stream": "fixed"}
                             hists.append(ec.run_real(text, [("set", p, "7")], dict(info, op="set")))
                             hists.append(ec.run_real(text, [("rm", p)], dict(info, op="rm")))
+    commented = [
+        "let # outer\n  x = 1;\nin\nlet # inner\n  y = 2;\nin\n{ a = 1; }\n",
+        "let # l1\n  x = 1;\nin\nlet # l2\n  y = 2;\n  # about z\n  z = 3; # eol z\nin\nlet # l3\n  w = 4;\nin\n{\n  a = 1;\n}\n",
+        "{ pkgs }:\nlet # outer\n  x = 1; # eol x\nin\nlet\n  # lead y\n  y = 2;\nin\n{\n  a = 1;\n}\n",
+    ]
+    for text in commented:
+        for depth in (1, 2, 3):
+            for nm in ("x", "y", "z", "w", "q"):
+                info = {"wrapper": "bare", "layers": text.count("let"), "inside": True, "depth": depth, "stream": "fixed"}
+                hists.append(ec.run_real(text, [("rm", "@" * depth + nm)], dict(info, op="rm")))
+                hists.append(ec.run_real(text, [("set", "@" * depth + nm, "7")], dict(info, op="set")))
     for _ in range(n_random):
         text, info = docs.gen_doc(ctx.rng)
         ops = []
@@ -93,6 +104,38 @@ def layer_trees(text):
     if ch is None:
         return None
     return [cstread.plain(t) for t in ch]
+
+
+def layer_token_lists(text):
+    """per let layer on the spine (outermost first): the texts of its tokens and comments from `let` to `in`"""
+    from ..layout import leaves_of
+
+    root = cstread.ts_parse(text)
+    if root.has_error:
+        return None
+    spans = []
+    node = root
+    while node is not None:
+        t = node.type
+        if t == "source_code":
+            kids = [c for c in node.named_children if c.type != "comment"]
+            if len(kids) != 1:
+                return None
+            node = kids[0]
+        elif t == "let_expression":
+            body = node.child_by_field_name("body")
+            spans.append((node.start_byte, body.start_byte if body is not None else node.end_byte))
+            node = body
+        elif t in ("function_expression", "with_expression", "assert_expression"):
+            node = node.child_by_field_name("body")
+        elif t == "parenthesized_expression":
+            node = node.child_by_field_name("expression")
+        elif t == "apply_expression":
+            node = node.child_by_field_name("argument")
+        else:
+            break
+    toks = leaves_of(text)[0]
+    return [[tt for (_k, tt, s0, _e) in toks if a <= s0 < b] for a, b in spans]
 
 
 def adjacent_layers(text) -> int | None:
@@ -244,6 +287,19 @@ def observe(ctx: fw.Ctx, hists, count_case: bool = True):
                 else:
                     del want_layers[n - depth]
             want_layers = outer + want_layers
+            if layers2 == want_layers and body2 == want_body and depth <= n:
+                # "the other layers keep their text": tokens AND comments of every layer that was not addressed
+                lb, la = layer_token_lists(r.before_text), layer_token_lists(out)
+                k = len(outer) + n - depth  # index of the addressed layer (outermost first)
+                if lb is not None and la is not None and k < len(lb):
+                    rest_b = lb[:k] + lb[k + 1:]
+                    rest_a = (la[:k] + la[k + 1:]) if len(la) == len(lb) else la
+                    if rest_b != rest_a:
+                        ctx.fail({"clause": "other-layers-text", **key, "depth": depth, "layers": n},
+                                 {**inp, "output": out},
+                                 f"{r.op!r} on {r.before_text!r}: a layer that was not addressed changed its text "
+                                 f"(tokens and comments per layer {rest_b!r} -> {rest_a!r}): {out!r}")
+                        continue
             if layers2 != want_layers or body2 != want_body:
                 ctx.fail({"clause": "layer-addressing", **key, "depth": depth, "layers": n},
                          {**inp, "output": out, "layers": layers2, "expected_layers": want_layers, "body": body2},
